@@ -95,6 +95,26 @@ func (m *refModel) build(v interface{}) *rnode {
 			n.arr = append(n.arr, m.build(e))
 		}
 	default:
+		// values of Go types other than the generic JSON ones (fixed-size arrays, typed slices and maps, structs, pointers)
+		// are what encoding/json makes of them
+		if rv := reflect.ValueOf(v); v != nil {
+			switch rv.Kind() {
+			case reflect.Array, reflect.Slice, reflect.Map, reflect.Struct, reflect.Ptr:
+				if b, err := json.Marshal(v); err == nil {
+					var g interface{}
+					if json.Unmarshal(b, &g) == nil {
+						switch g.(type) {
+						case map[string]interface{}, []interface{}:
+							m.nextID-- // the node is built by the recursive call
+							return m.build(g)
+						}
+						n.kind = 'p'
+						n.prim = g
+						return n
+					}
+				}
+			}
+		}
 		n.kind = 'p'
 		n.prim = v
 	}
@@ -552,6 +572,9 @@ func c03Calls(ref *refModel, alpha string) []pt.Action {
 		shapes := []string{"p", "o", "a"}
 		if rich {
 			shapes = []string{"p", "o", "a", "n"}
+		}
+		if strings.Contains(alpha, "gotypes") {
+			shapes = []string{"p", "ga", "gs", "gp", "gm"}
 		}
 		for _, t := range objs {
 			keys := []string{"a", "b"}
